@@ -138,11 +138,12 @@ def _run_case(case):
     dists = [i for i in ("d.rev", "mvn", "detn") if i in dic]
 
     extra_leaves = ["tree.heights"] if gname == "time-plain" and "tree.heights" in dic else []
+    data_leaves = [i for i in g.get("data", {}) if i in dic]  # data held in parameters (counts): updated through the same interface
     tviews = [i for i, o in dic.items() if isinstance(o, ViewParameter) and isinstance(o.parameter, TransformedParameter)]
     tview_written = False
 
     def leaf_values():
-        return {i: dic[i].tensor.detach().clone().tolist() for i in list(leaves) + extra_leaves}
+        return {i: dic[i].tensor.detach().clone().tolist() for i in list(leaves) + extra_leaves + data_leaves}
 
     def compare(where, subset_eval, subset_derived, tensors):
         values = leaf_values()
@@ -261,7 +262,7 @@ def _run_case(case):
 
     ok = True
     for step in range(case["length"]):
-        op = str(rng.choice(OPS + (["heights-shape"] * 3 if extra_leaves else []) + (["assign-view-of-transformed"] if tviews else [])))
+        op = str(rng.choice(OPS + (["heights-shape"] * 3 if extra_leaves else []) + (["assign-view-of-transformed"] if tviews else []) + (["assign-data"] * 2 if data_leaves else [])))
         desc = None
         tview_written = False
         try:
@@ -346,6 +347,11 @@ def _run_case(case):
                 desc = "assign through view %s of a transformed parameter" % vid
             elif op == "optimizer-run":
                 desc = run_optimizer()
+            elif op == "assign-data" and data_leaves:
+                did = str(rng.choice(data_leaves))
+                cur = dic[did].tensor
+                dic[did].tensor = torch.tensor(rng.integers(0, 7, tuple(cur.shape)), dtype=cur.dtype)
+                desc = "assign data parameter " + did
             elif op == "heights-shape" and extra_leaves:
                 # the heights of a plain time tree get another sample shape (what Distribution.sample(sample_shape) does to them)
                 h = dic["tree.heights"]
